@@ -17,7 +17,7 @@
 From Coq Require Import List Arith Permutation Lia.
 Import ListNotations.
 From BQ Require Import lib.Perm lib.PermThm lib.Trace map.Graph map.GraphThm map.GraphSubThm map.GraphCtorThm
-  map.Sabre map.SabreDag map.SabreThm map.SabreSem map.SabreCoupled map.Placement map.PlacementThm map.Pam map.PamThm.
+  map.Sabre map.SabreDag map.SabreThm map.SabreSem map.SabreCoupled map.Placement map.PlacementThm map.Pam map.PamThm map.PamSem.
 
 (* ---- lib/Perm ------------------------------------------------------------------ *)
 (* _apply_swap on a permutation pi of 0..n-1 is the value-level transposition of the
@@ -214,7 +214,7 @@ Theorem C09_mappings_same_unitary : forall g c nq,
 Proof. exact pipeline_sem. Qed.
 
 
-(* ---- permutation-aware mapping (PAM): PARTIAL ------------------------------------------------- *)
+(* ---- permutation-aware mapping (PAM) ------------------------------------------------------------ *)
 (* map/Pam.v: an executed block is replaced by a pre-synthesised triple (pre, circ, post) that
    _get_best_perm may choose only if perm_data has an entry for the coupling graph induced on
    the (permuted) physical location; pi is changed by _apply_perm(pre) and _apply_perm(post). *)
@@ -257,15 +257,16 @@ Theorem C09_pam_layout : forall cg c bars tbl nq trs pl p pl',
   wfperm nq p /\ pl' = compose pl p.
 Proof. exact pam_layout_pass_spec. Qed.
 
-(* NOT PROVED (full statement).  With the contract of the pre-synthesised triples taken as the
-   definition of a block's semantics (PamThm.blk: bring wire L[pre[j]] to L[j], apply the block,
-   send L[j] to L[post[j]]), and naturality of SWAP and of the wire permutations, the PAM output
-   is the input placed through the initial pi followed by the left-over wire permutations - the
-   analogue of C09_route_same_unitary.  The proved part is C09_pam_partial; this clause is
-   exercised on every run by the exact basis-state oracle of the harness (blocks unfolded). *)
-Definition C09_pam_full : Prop := forall cg c bars tbl nq pi0 tc s,
+(* The semantic clause for PAM.  The contract of a pre-synthesised triple (EmbedAllPermutationsPass:
+   circ = Po^T . U . Pi) is taken as the MEANING of a block in the output (PamThm.blk: bring wire
+   L[pre[j]] to L[j], apply the block on L, send L[j] to L[post[j]]) - whether the numerically
+   synthesised circuit meets that contract is the oracle of C03/C10.  Then, for block locations in
+   ascending order (what partitioners produce; pam.py's _apply_perm pairs sorted(perm) with perm),
+   naturality of SWAP and of wire permutations, and barriers meaning identity: the PAM output is
+   the input placed through the initial pi followed by the left-over wire permutations. *)
+Theorem C09_pam_same_unitary : forall cg c bars tbl nq pi0 tc s,
   wf_circ c nq -> wfperm nq pi0 ->
-  (forall n, n < length c -> nth n bars false = true -> gfree (opat c n) = true) ->
+  (forall n, n < length c -> nth n bars false = false -> Sorted.StronglySorted lt (gloc (opat c n))) ->
   preplay cg c bars tbl true (pinit c nq pi0) tc = Some s -> pF s = [] ->
   forall (M : Type) (mul : M -> M -> M) (one : M) (den : nat -> list nat -> M) (sw : nat -> nat -> M)
          (pmove : list nat -> list nat -> M),
@@ -274,13 +275,23 @@ Definition C09_pam_full : Prop := forall cg c bars tbl nq pi0 tc s,
      (forall q, In q L1 -> ~ In q L2) -> mul (den n1 L1) (den n2 L2) = mul (den n2 L2) (den n1 L1)) ->
   (forall a b n L, a < nq -> b < nq -> (forall q, In q L -> q < nq) ->
      mul (sw a b) (den n L) = mul (den n (map (tr a b) L)) (sw a b)) ->
-  (* naturality of a wire permutation on L by the local permutation r of 0..|L|-1 *)
+  (* the wire permutation "move wire L[j] to L[r[j]]": an operation placed after it on L' acts on what
+     was on fmove L (inverse r) L' before it *)
   (forall L r n L', NoDup L -> (forall q, In q L -> q < nq) -> wfperm (length L) r -> (forall q, In q L' -> q < nq) ->
-     mul (pmove L r) (den n L') =
-     mul (den n (map (fun x => match Perm.index_of x L with Some j => nth (nth j r 0) L 0 | None => x end) L')) (pmove L r)) ->
-  (forall n, n < length c -> nth n bars false = true -> forall L, den n L = one) ->
+     mul (pmove L r) (den n L') = mul (den n (map (fmove L (inverse r)) L')) (pmove L r)) ->
+  (forall n, nth n bars false = true -> forall L, den n L = one) ->
   prodP M mul one den sw pmove (pout s) =
   mul (prodV M mul one den pi0 (prog c)) (ptail M mul one sw pmove (pout s)).
+Proof. exact pam_sem. Qed.
+
+(* the pi bookkeeping of a chosen triple, as wire maps: pre moves L[j] to L[inverse(pre)[j]] ... *)
+Theorem C09_pam_perm_exec : forall nq cg p qudits pre post es L p2,
+  wfperm nq p -> Sorted.StronglySorted lt qudits -> (forall q, In q qudits -> q < nq) ->
+  perm_exec cg p qudits pre post = Some (es, L, p2) ->
+  let p1 := map (fmove L (inverse pre)) p in
+  wfperm (length L) pre /\ wfperm (length L) post /\ NoDup L /\ (forall q, In q L -> q < nq) /\
+  wfperm nq p1 /\ L = compose p1 qudits /\ p2 = map (fmove L post) p1.
+Proof. exact perm_exec_sorted. Qed.
 
 Definition ex_pcg : adj := [[2];[2];[0;1]].
 Definition ex_pc : circ := [mkop false [0;1;2]; mkop false [0;1]; mkop true [1]].
